@@ -16,7 +16,7 @@ from engines.x86sym import orcentry
 from engines.x86sym.machine import byte_name
 from engines import oracle as oracle_mod
 
-ENGINE_VERSION = 'x86check-4'
+ENGINE_VERSION = 'x86check-5'
 CALLEE_SAVED = ('rbx', 'rbp', 'r12', 'r13', 'r14', 'r15')
 
 SSE_BITS = {'sse2': 1, 'sse3': 2, 'ssse3': 4, 'sse4.1': 8, 'sse4.2': 16, 'avx': 1 << 10, 'avx2': 1 << 11}
@@ -416,6 +416,18 @@ def prove_equal(solver_q, got, want, wrong_of=None, depth=2):
     return 'unknown'
 
 
+def iszero_bits(b):
+    return z3.Extract(b.size() - 2, 0, b) == 0
+
+
+def ftz_boundary(got, want):
+    """want = +-smallest normal, got = zero of the same sign"""
+    w = want.size()
+    mant = 23 if w == 32 else 52
+    return z3.And(z3.Extract(w - 2, mant, want) == 1, z3.Extract(mant - 1, 0, want) == 0, z3.Extract(w - 2, 0, got) == 0,
+                  z3.Extract(w - 1, w - 1, got) == z3.Extract(w - 1, w - 1, want))
+
+
 def isnan_bits(b):
     if b.size() == 32:
         return z3.And(z3.Extract(30, 23, b) == 0xff, z3.Extract(22, 0, b) != 0)
@@ -450,7 +462,11 @@ def check_program(prog, target, optable, sem, n_max=None, m_max=2, query_timeout
             res['notes'].append('ldres* programs need the windowed-source model: not in this tier')
             return res
         isfloat = any(optable[o]['flags'] & 6 for o in ops_used)
-        hard_data = any(o == 'divluw' for o in ops_used)      # 16-step shift/subtract divider: equivalence not decided in budget
+        minmax = any(o in ('minf', 'maxf', 'mind', 'maxd') for o in ops_used)
+        fops_ = [o for o in ops_used if optable[o]['flags'] & 6]
+        fw = 8 * optable[fops_[-1]]['dest'][0] if fops_ and (optable[fops_[-1]]['flags'] & 4) else 0     # float lane width of the result (0: integer result)
+        hard_fp = fp_data == 'quick' and any(o in ('mulf', 'divf', 'sqrtf', 'muld', 'divd', 'sqrtd', 'convfl', 'convdl') for o in ops_used)
+        hard_data = any(o == 'divluw' for o in ops_used) or hard_fp      # 16-step shift/subtract divider: equivalence not decided in budget
         es = orcentry.orc_entry_state(prog, solver, n_max, m_max=m_max)
         L = es.layout
         shift_params = set()
@@ -581,17 +597,51 @@ def check_program(prog, target, optable, sem, n_max=None, m_max=2, query_timeout
                                 fp_skipped[0] += 1
                                 continue
                             cg, cw = canon.canon([got, wantt], i)
+                            if isfloat and fw and cg.size() > fw:
+                                # x2/x4 float elements: decide lane by lane (NaN-ness is a per-lane notion)
+                                worst = None
+                                for l_ in range(cg.size() // fw):
+                                    gl, wl = z3.simplify(z3.Extract(fw * l_ + fw - 1, fw * l_, cg)), z3.simplify(z3.Extract(fw * l_ + fw - 1, fw * l_, cw))
+                                    if z3.eq(gl, wl):
+                                        continue
+                                    kk = (gl.get_id(), wl.get_id())
+                                    vv = verdicts.get(kk)
+                                    if vv is None:
+                                        wf_ = (lambda a_, b_: z3.And(a_ != b_, z3.Not(z3.And(isnan_bits(a_), isnan_bits(b_))), z3.Not(z3.And(iszero_bits(a_), iszero_bits(b_))))) if minmax else \
+                                              (lambda a_, b_: z3.And(a_ != b_, z3.Not(z3.And(isnan_bits(a_), isnan_bits(b_)))))
+                                        pr_ = prove_equal(lambda w_: q(data_solver, w_), gl, wl, wrong_of=wf_)
+                                        if isinstance(pr_, tuple):
+                                            r2, _m = q(data_solver, z3.And(wf_(gl, wl), z3.Not(ftz_boundary(gl, wl))))
+                                            if r2 == z3.unsat:
+                                                pr_ = ('bad-ftz', pr_[1])
+                                        vv = ('ok', None) if pr_ == 'ok' else ('unknown', None) if pr_ == 'unknown' else pr_
+                                        verdicts[kk] = vv
+                                    if vv[0] != 'ok' and (worst is None or vv[0] == 'bad'):
+                                        worst = vv
+                                verdicts[(cg.get_id(), cw.get_id())] = worst or ('ok', None)
                             k = (cg.get_id(), cw.get_id())
                             v = verdicts.get(k)
                             if v is None:
                                 wf = None
-                                if isfloat and cg.size() in (32, 64):
-                                    wf = lambda a_, b_: z3.And(a_ != b_, z3.Not(z3.And(isnan_bits(a_), isnan_bits(b_))))
+                                if isfloat and fw and cg.size() == fw:
+                                    if minmax:
+                                        # documented exemption: min/max of numerically equal operands (+0/-0) may return either
+                                        wf = lambda a_, b_: z3.And(a_ != b_, z3.Not(z3.And(isnan_bits(a_), isnan_bits(b_))), z3.Not(z3.And(iszero_bits(a_), iszero_bits(b_))))
+                                    else:
+                                        wf = lambda a_, b_: z3.And(a_ != b_, z3.Not(z3.And(isnan_bits(a_), isnan_bits(b_))))
                                 pr = prove_equal(lambda w_: q(data_solver, w_), cg, cw, wrong_of=wf)
+                                if isinstance(pr, tuple) and isfloat and fw and cg.size() == fw:
+                                    # is every disagreement inside the x86 flush-to-zero boundary class (result tiny before rounding,
+                                    # smallest normal after rounding)?  Then it is the recorded hardware-semantics finding, not a new one.
+                                    r2, _m = q(data_solver, z3.And(wf(cg, cw), z3.Not(ftz_boundary(cg, cw))))
+                                    if r2 == z3.unsat:
+                                        pr = ('bad-ftz', pr[1])
                                 v = ('ok', None) if pr == 'ok' else ('unknown', None) if pr == 'unknown' else pr
                                 verdicts[k] = v
                             if v[0] == 'bad':
                                 add('C01', 'dest %s row %d element %d != emulation (n=%d)' % (nm, row, i, nv_eff), dict(n=nv_eff, m=mv, model=v[1]))
+                            elif v[0] == 'bad-ftz':
+                                add('C01', '[ftz-boundary] dest %s element differs from emulation only where the exact result is tiny before rounding and rounds to the smallest normal (x86 FTZ gives 0, emulation the smallest normal)' % nm, dict(n=nv_eff, m=mv, model=v[1]))
                             elif v[0] == 'unknown':
                                 res['inconclusive'].append('data equivalence %s[%d] unknown' % (nm, i))
                     # bytes outside [0, n*size) of each row must be untouched
